@@ -486,6 +486,10 @@ class TimeTriggeredPlanValidator(engines.engine.Engine, mixins.PlanValidatorMixi
 
         if not open_interval:
             yield before_time, trace[before_time]
+        elif equal_time == before_time and (end is None or start < end):
+            # left-open interval with no happening exactly at its left end: the state
+            # in force right after `start` is the one produced before it
+            yield before_time, trace[before_time]
         if equal_time != before_time and equal_time != end:
             yield equal_time, trace[equal_time]
         for x in inside_indexes:
